@@ -11,6 +11,7 @@
 mod defs;
 mod hist;
 mod bumpx;
+mod twin;
 mod util;
 
 use std::panic::{catch_unwind, AssertUnwindSafe};
@@ -577,6 +578,7 @@ fn main() {
                 "stack" => sub_stack(small),
                 "adv" => sub_adv(small),
                 "long" => sub_long(small),
+                "twin" => twin::sub_twin(seed, count, small),
                 _ => {}
             }
         }
